@@ -191,6 +191,7 @@ def trace_assemble(src: str, rom: str = "low_rom", cwd: str | None = None, timeo
                                 if rec["cls"] in ("LabelNode", "BinaryNode"):
                                     rec["label_value"] = n.resolver.current_scope.labels.get(rec["name"])
                                     rec["symbol_value"] = n.resolver.current_scope.symbols.get(rec["name"])
+                                    rec["scope_cls"] = type(n.resolver.current_scope).__name__
                                 b = orig_emit(cur)
                                 rec["bytes"] = bytes(b)
                                 if rec["cls"] in ("CodePositionNode", "RelocationAddressNode"):
